@@ -250,6 +250,24 @@ META = {
         level_text="Relations between ~10^5 (quick) / 10^7 (thorough) renderings of the real spatial mixer; exploration of a continuous geometry space.",
         level_note="Trusts the harness geometry (glam) used to construct mirrored and rigidly moved scenes.",
     ),
+    "C16": dict(
+        level="exploration",
+        technique="runtime monitoring: probe effect recording the sample rate it was told vs the dt it is processed with over exhaustively enumerated add/change/callback histories and scheduler-enumerated interleavings of the add-track race; seconds/hertz quantities measured on renderings at 8 device rates and across mid-stream rate changes",
+        design_ref="DESIGN.md §3 C16",
+        rule=("(A) every history of length <= 5 (quick) / 6 (thorough) over {add_sub_track with/without effects, TrackHandle::add_sub_track with/without effects, add_spatial_sub_track, nested add_spatial_sub_track, add_send_track, change_sample_rate, callback} plus random histories of 6..24 ops (internal buffer 1/7/16/64): at every Effect::process, round(1/dt) must equal the last rate given to init/on_change_sample_rate, and after the history every processed probe was last told the device rate. "
+              "(A') for each of the 7 add-track paths, all interleavings (depth-first over the controlled scheduler, yield points game.add, hook track.add.loaded, audio.change, audio.cb) of one add call with 1 or 2 {rate change, callback} pairs on the renderer thread; same invariant. "
+              "(B) random cells (rate R1 in 8 rates 8k..192k, optional change to R2 at a callback boundary 2..30 ms in, internal buffer 16..128, random callback sizes): a tone keeps its duration (+-5 sound frames + 4 device frames) and mean-crossing count (+-3); a sound scheduled at clock tick k starts at k/tps s (+- one internal chunk); a linear -40 dB volume tween of D s passes -20 dB at D/2 and ends at D (+- one chunk); "
+              "a wet delay of T s on main/top/nested (plain, with-effect or 2 levels deep group parents)/send/spatial/nested-spatial tracks, for the orders add-callback-change, add-change-callback and change-add-callback, repeats a 2 ms burst at k*floor(T*R)/R s (+-3 frames, k <= 4); low/high/band-pass gain at the cutoff agrees (0.25 dB) between early/late windows, before/after a change and another device rate. "
+              "A case is distinct when its (history length, op set) / (race path, event order) / (measurement kind, R1, R2) is new."),
+        domain="rates 8000..192000 (8 values); tone frequencies <= min(sound rate, device rate)/10; delays 4..30 ms; filter cutoffs 200..1500 Hz, resonance <= 0.6; the rate change is applied between callbacks by the thread that owns the renderer (as the cpal backend does)",
+        assumptions=["the rate-in-force invariant is judged on a harness Effect implementation; built-in effects are covered by the delay/filter measurements",
+                     "reverb and compressor time constants are not measured here (C14 measures them per rate)"],
+        quick=[rel(30)],
+        thorough=[rel(600), dict(engine="native-dev", shards=16, budget=120)],
+        exhaustive_quick=False,
+        level_text="All add/change/callback histories up to length 5 (quick) / 6 (thorough) and all interleavings of the add-track race are enumerated against a probe monitor; second/hertz measurements sample ~10^4 (quick) / 10^6 (thorough) rate cells. Exploration: longer histories and the continuous parameter space are sampled.",
+        level_note="Trusts the harness probe Effect and the controlled scheduler (only hook sites and explicit yields are scheduling points).",
+    ),
     "C19": dict(
         level="exploration",
         technique="runtime monitoring: exhaustive f32 sweeps + dense boundary-biased sampling of the public conversion functions against independent f64 oracles",
